@@ -432,8 +432,9 @@ func (d *Descriptor) readAsJSON(out Outputter, data []byte) (n int, err error) {
 
 func (d *Descriptor) readJSONObjectKV(out Outputter, data []byte) (n int, err error) {
 	var (
-		jType  jsonType
-		offset int
+		jType     jsonType
+		offset    int
+		haveValue bool
 	)
 
 	for offset < len(data) {
@@ -469,6 +470,7 @@ func (d *Descriptor) readJSONObjectKV(out Outputter, data []byte) (n int, err er
 			jType = jsonType(v)
 			offset += n
 		case 3:
+			haveValue = true
 			switch jType {
 			case jsonTypeString:
 				l, n := plenccore.ReadVarUint(data[offset:])
@@ -553,6 +555,11 @@ func (d *Descriptor) readJSONObjectKV(out Outputter, data []byte) (n int, err er
 		default:
 			return 0, fmt.Errorf("unexpected json field index %d", index)
 		}
+	}
+
+	if !haveValue && jType == jsonTypeNil {
+		// nil has a type but no value field
+		out.Raw("null")
 	}
 
 	return offset, nil
